@@ -1,13 +1,12 @@
 #!/bin/sh
 # Run once after a fresh restore, offline: builds the runner and warms the Go build cache
-# for the simulation binaries (everything from files on disk; nothing is fetched).
+# for both simulation binaries (everything from files on disk; nothing is fetched).
 set -e
 export GOFLAGS=-mod=mod GOPROXY=off GOSUMDB=off GOTOOLCHAIN=local CGO_ENABLED=0
 HERE="$(cd "$(dirname "$0")" && pwd)"
 mkdir -p "$HERE/bin" "$HERE/evidence" "$HERE/replays"
 cd "$HERE/sim"
 go1.26.8 build -tags verif -o "$HERE/bin/check" ./cmd/check
-T="$(mktemp -d)"
-go1.26.8 test -c -tags verif -o "$T/world.test" ./world
-rm -rf "$T"
+cd "$HERE"
+"$HERE/bin/check" warm
 echo "setup ok"
